@@ -19,6 +19,11 @@ pub fn sections(ctx: &Ctx) -> Vec<(&'static str, u64)> {
         Tier::Quick => (400, 160, 200),
         Tier::Thorough => (10_000, 2_000, 5_000),
     };
+    // rejected programs of many shapes: snippets with one token lost, duplicated or swapped
+    let w5t = match ctx.tier {
+        Tier::Quick => 60,
+        Tier::Thorough => 1200,
+    } * ctx.scale;
     let w5 = match ctx.tier {
         Tier::Quick => (ctx.snippets.len() as u64).div_ceil(SNIPPET_BATCH).min(24),
         Tier::Thorough => (ctx.snippets.len() as u64).div_ceil(SNIPPET_BATCH),
@@ -29,6 +34,7 @@ pub fn sections(ctx: &Ctx) -> Vec<(&'static str, u64)> {
         ("w3", w3 * ctx.scale),
         ("w4", w4 * ctx.scale),
         ("w5", w5),
+        ("w5-tokens", w5t),
     ]
 }
 
@@ -88,6 +94,33 @@ pub fn cases(ctx: &Ctx, section: &str, i: u64) -> Vec<Case> {
             // differ in schedule. Alternates corpus and generated graphs.
             let (label, fs, task) = crate::c08::faulted_scenario(ctx, &mut rng.sub("w4"), i);
             vec![det_case(&label, fs, task, &ctx.corpus, &mut rng, s.min(4))]
+        }
+        "w5-tokens" => {
+            let mut out = Vec::new();
+            if ctx.snippets.is_empty() {
+                return out;
+            }
+            for n in 0..24u64 {
+                let mut r = rng.sub_n("pick", n);
+                let si = r.below(ctx.snippets.len() as u64) as usize;
+                let faults = crate::c08::token_faults(&ctx.snippets[si]);
+                if faults.is_empty() {
+                    continue;
+                }
+                let (what, text) = &faults[r.below(faults.len() as u64) as usize];
+                let target = [Target::Dx, Target::Vk, Target::Msl][(n % 3) as usize];
+                let mut t = TaskSpec::compile(0, "test.rssl", target);
+                t.no_pipeline = true;
+                out.push(det_case(
+                    &format!("W5:snippet#{si}@{} {what}", target.name()),
+                    snippet_fs(text),
+                    t,
+                    &ctx.corpus,
+                    &mut r,
+                    3,
+                ));
+            }
+            out
         }
         "w5" => {
             // Snippets from the repository's own tests: all batches in thorough; in quick the
